@@ -323,26 +323,45 @@ def strat_e2e(ctx: Ctx):
     song = st.lists(st.sampled_from([["Offset", "5"], ["Offset", "120"], ["Offset", "0"], ["Name", '"x"'],
                                      ["PreviewStart", "30"], ["Difficulty", "4"], ["Player2", "rhythm"]]),
                     max_size=3, unique_by=lambda x: x[0])
-    return st.builds(lambda res, tempo, tsig, anchors, ts0, song: {
+    return st.builds(lambda res, tempo, tsig, anchors, ts0, song, big: {
         "res": res, "tempo": [list(x) for x in tempo], "tsig": [list(x) for x in tsig],
-        "anchors": [list(x) for x in anchors], "ts0": list(ts0), "song": song},
+        "anchors": [list(x) for x in anchors], "ts0": list(ts0), "song": song, "big": big},
         st.sampled_from([192, 480, 96, 100, 1, 7, 960]), tempo, tsig, anchors,
-        st.tuples(st.integers(0, 64), st.one_of(st.none(), st.integers(0, 16))), song)
+        st.tuples(st.integers(0, 64), st.one_of(st.none(), st.integers(0, 16))), song,
+        st.sampled_from([0, 0, 0, 0, 1, 2, 3, 4, 5, 6, 7, 8]))
+
+
+# tick offsets around the widths of machine integers (a tick has "any digit count"): index = case["big"]
+_BIG = [0, 2 ** 31 - 25, 2 ** 32 - 25, 2 ** 32, 2 ** 33 + 1, 2 ** 63 - 25, 2 ** 64 - 25, 2 ** 64, 10 ** 20]
 
 
 def check_e2e(ctx: Ctx, case) -> None:
     sync = []
     t = 0
     bpms = []
+    big = case.get("big", 0)
+    off = _BIG[big]
+    res = case["res"]
+    if big:
+        # everything behind the first tempo event moves up by ``off`` ticks; tempos (and the resolution)
+        # are made fast enough for the times to stay inside the timedelta range
+        res = max(res, 96) if big <= 4 else 960
+        case = dict(case, res=res)
     for i, (gap, n) in enumerate(case["tempo"]):
         t = 0 if i == 0 else t + gap
-        bpms.append((t, n))
+        if big:
+            n = max(n, 10 ** 6) if big <= 4 else 10 ** 9 - n % 7
+        if i and gap % 5 == 0:
+            n = bpms[-1][1]            # a tempo line that restates the tempo in force is an event all the same
+        bpms.append((t + (off if i else 0), n))
     tss = [(0, case["ts0"][0], case["ts0"][1])]
     tt = 0
     for gap, u, l in case["tsig"]:
         tt += gap
-        tss.append((tt, u, l))
-    anchors = sorted((a[0], a[1]) for a in case["anchors"])
+        if u % 7 == 0:
+            u, l = tss[-1][1], tss[-1][2]      # the signature in force, written again
+        tss.append((tt + (off if len(tss) > 1 else 0), u, l))
+    anchors = sorted((a[0] + (off if k % 2 else 0), a[1]) for k, a in enumerate(case["anchors"]))
     merged = [(tk, 0, ["TS", u, l]) for tk, u, l in tss] + [(tk, 1, ["B", n]) for tk, n in bpms] + \
              [(tk, 2, ["A", us]) for tk, us in anchors]
     merged.sort(key=lambda x: (x[0], x[1]))
